@@ -75,10 +75,9 @@ Finished == {id \in 1..Len(stores) : stores[id].complete}
 CrashSafe == LET out == Restart IN
              /\ Terminated(out)
              /\ \A i \in 1..Len(out.ent) : Servable(out.ent[i]) => \E id \in Finished : Content(out.ent[i]) = WholeStore(id)
-\* what today's rebuild achieves: a servable chain that is not one complete store mixes two stores of the SAME URL, and
-\* starts with the inode of the store that was in progress (slot versions are not compared)
-MixedEditions(e) == /\ cur # NoCur /\ Content(e)[1] = <<cur.id, 1>>
-                    /\ \A k \in 1..Len(e.chain) : stores[Content(e)[k][1]].obj = cur.obj
+\* what today's rebuild achieves: a servable chain that is not one complete store mixes slots of several stores of the SAME
+\* URL (the store in progress and the edition it replaces, or editions evicted earlier): slot versions are not compared
+MixedEditions(e) == \A k \in 1..Len(e.chain) : stores[Content(e)[k][1]].obj = stores[Content(e)[1][1]].obj
 \* ... or its chain runs through a slot that now belongs to another URL (finding F6c of C57: finalizeOrThrow accepts a slot
 \* mapped for another entry; here the stale inode of an evicted entry still points to a slot that was reused)
 CrashSafeUpToKnown ==
